@@ -79,7 +79,7 @@ def parseEvent (tok : String) : Option Event :=
   | _ => (parseApi tok).map .api
 
 structure SockScn where
-  app : App := {}
+  app : Script := {}
   events : List Event := []
   bad : List String := []
 deriving Inhabited
@@ -150,6 +150,7 @@ def showObs : Obs → String
   | .snap s => showSnap s | .del => "del" | .crash => "crash"
   | .mw i ok => s!"mw:{i}:{if ok then 1 else 0}" | .rt n p => s!"rt:{n}:{hex p}"
   | .pr n p => s!"pr:{n}:{hex p}" | .slot n a => s!"slot:{n}:{a}" | .ev k => s!"e:{k}"
+  | .misc t d => s!"x:{t}:{hex d}"
 
 def parseObs (tok : String) : Option Obs :=
   match fields tok with
@@ -166,6 +167,7 @@ def parseObs (tok : String) : Option Obs :=
   | ["pr", n, p] => some (.pr (toNat n) (unhex p))
   | ["slot", n, a] => some (.slot (toNat n) (toNat a))
   | ["e", k] => some (.ev (toNat k))
+  | ["x", t, d] => some (.misc (toNat t) (unhex d))
   | _ => none
 
 def showLog (l : List Obs) : String := " ".intercalate (l.map showObs)
